@@ -154,7 +154,7 @@ Fixpoint ser_value (pfx : bytes) (v : value) {struct v} : bytes :=
   | VDur t => quoted m t
   | VTime t => time_text m t
   | VBytes s => quoted m s
-  | VFallback t => match m with ShColor => t | _ => quoted m t end
+  | VFallback t => quoted m t
   | VStrs l => bracket (map (quoted m) l)
   | VBools l => bracket (map bool_text l)
   | VInts l => bracket (map dec_of_Z l)
